@@ -24,7 +24,12 @@ RULE = ("case = core count + 4-30 steps over up to 3 concurrent connections: hea
         "each in a state admissible for what happened to that task; a new healthy enqueue is accepted; after the drain "
         "every accepted task is final (C13's outcome model; accepted wrong-shape tasks must end failed-class); the core "
         "bound of C12 holds throughout. Non-trivial: a malformed or aborted request arrives between two healthy requests "
-        "while a task is running. Distinct = SHA-1 of canonical case JSON.")
+        "while a task is running. Real-socket tier: a real `gwf workers` process with a 2 s task, a dependent and an "
+        "independent task submitted by `gwf run`; 2-6 misbehaving raw-socket clients (2-50 pipelined requests then hang-up "
+        "without reading, hang-up in the middle of a reply, garbage, half a line kept open, cancel/state of unknown ids, "
+        "wrong-shape enqueue, ~60000 requests whose replies are never read); then the pool process is alive, `gwf status` "
+        "sub-processes are answered within 25 s, all three tasks ran to their end and show completed, a task submitted "
+        "afterwards completes, the four tracked ids are distinct. Distinct = SHA-1 of canonical case JSON.")
 ASSUMPTIONS = [
     "virtual tier: connections are in-memory asyncio.StreamReader objects and a recording writer; processes are fake",
     "`shutdown` is the documented way to stop the pool and is not part of the misbehaving alphabet",
@@ -84,6 +89,25 @@ def strategy(tier):
     return _case(tier)
 
 
+def _real_extra():
+    from vlib import realrogue
+
+    return [{"name": "real_socket", "strategy": lambda tier: realrogue.case(),
+             "examples": {"quick": 3, "thorough": 48}, "wall_s": 300}]
+
+
+EXTRA_STRATEGIES = _real_extra()
+CASE_TIMEOUT_S = 240
+
+
+def run_real(case):
+    """Real `gwf workers` process, `gwf -b local` sub-processes as the healthy client, raw sockets misbehaving."""
+    from vlib import realrogue
+
+    viols, labels, nt = realrogue.run(case)
+    return CaseResult([Violation(sig, msg) for sig, msg in viols], nt, sorted(labels))
+
+
 class Writer:
     def __init__(self):
         self.buf = b""
@@ -132,6 +156,8 @@ class Conn:
 
 
 def run_case(case):
+    if case.get("kind") == "real-rogue":
+        return run_real(case)
     w = vpool.World(case["cores"], with_server=True)
     viols = []
     labels = set()
